@@ -379,6 +379,81 @@ def replay_history(si, n, hist, text, before=(), earlier=(), wlimit=12):
     return False, {'after_history': a[0], 'fresh': b[0]}
 
 
+# ---------------------------------------------------------------- file histories
+# supplement without a solver dimension: sequences of file loads on one metamodel
+# (imports, global repository on/off); every load of the sequence must give what a
+# fresh metamodel gives for that file (files never change, so a cached model is
+# structurally the fresh one)
+FGRAMMAR = """
+Model: imports*=Import items*=Item;
+Import: 'import' importURI=STRING;
+Item: 'item' name=ID ('->' ref=[Item])?;
+"""
+FFILES = {
+    'lib.m': 'item l1 item l2 -> l1',
+    'a.m': 'import "lib.m" item a1 -> l2',
+    'c.m': 'import "lib.m" import "a.m" item c1 -> a1',
+    'missing-import.m': 'import "lib.m" import "absent.m" item b1 -> l1',
+    'syntax.m': 'import "lib.m" item b2 -> %',
+    'dangling.m': 'import "a.m" item b3 -> nowhere',
+    'imports-broken.m': 'import "lib.m" import "syntax.m" item b4 -> l1',
+}
+FOPS = ['a.m', 'c.m', 'missing-import.m', 'syntax.m', 'dangling.m', 'imports-broken.m']
+
+
+def file_outcome(mm, path):
+    from textx.exceptions import TextXError
+    d = os.path.dirname(path)
+    try:
+        m = mm.model_from_file(path)
+    except TextXError as e:
+        return (type(e).__name__, e.line, e.col, str(e).replace(d, '')[:140])
+    except OSError as e:
+        return ('OSError', type(e).__name__, os.path.basename(str(e.filename)))
+    except Exception as e:  # noqa
+        return ('exception', type(e).__name__, str(e)[:140])
+    return ('ok', [(it.name, it.ref.name if it.ref is not None else None) for it in m.items])
+
+
+def file_history_side(provider, global_repo, hist):
+    from textx import metamodel_from_str
+    import textx.scoping.providers as P
+
+    def mk():
+        mm = metamodel_from_str(FGRAMMAR, global_repository=global_repo)
+        mm.register_scope_providers({'*.*': getattr(P, provider)()})
+        return mm
+    tmp = tempfile.mkdtemp(prefix='c16f_')
+    try:
+        for fn, text in FFILES.items():
+            with open(os.path.join(tmp, fn), 'w') as f:
+                f.write(text)
+        subject = mk()
+        for i, fn in enumerate(hist):
+            a = file_outcome(subject, os.path.join(tmp, fn))
+            b = file_outcome(mk(), os.path.join(tmp, fn))
+            if a != b:
+                return {'step': i, 'file': fn, 'after_history': a, 'fresh': b}
+        return None
+    finally:
+        import shutil
+        shutil.rmtree(tmp, ignore_errors=True)
+
+
+def file_histories(item):
+    import itertools
+    provider, global_repo, length = item
+    bad = []
+    n = 0
+    for k in range(1, length + 1):
+        for hist in itertools.product(FOPS, repeat=k):
+            n += 1
+            r = file_history_side(provider, global_repo, list(hist))
+            if r and len(bad) < 3:
+                bad.append({'provider': provider, 'global_repo': global_repo, 'history': list(hist), 'detail': r})
+    return {'histories': n, 'bad': bad}
+
+
 def main():
     import textx.model as M
     import textx.metamodel as MM
@@ -437,6 +512,22 @@ def main():
                     'equivalence_queries_unsat': r['queries']['unsat'], 'witnesses_replayed_per_history': r['witnesses']})
     if chk.cov['model_mismatches']:
         chk.harness_error('sympeg reports a history-dependent difference that the real textX does not show')
+    # file histories (enumerated; no solver dimension)
+    fitems = [(p_, gr, 2 if quick else 3) for p_ in ('FQNImportURI', 'PlainNameImportURI') for gr in (False, True)]
+    for it, (st, r, secs) in zip(fitems, pmap(file_histories, fitems)):
+        if st != 'ok':
+            chk.harness_error(r)
+            continue
+        hist += r['histories']
+        for b in r['bad'][:1]:
+            chk.cov['traces_validated_against_impl'] += 1
+            d = b['detail']
+            chk.violation('file history %s (%s, global repository %s): load %d of %s gives %s, a fresh metamodel gives %s' % (
+                b['history'], b['provider'], b['global_repo'], d['step'], d['file'], d['after_history'], d['fresh']),
+                {'file_history': b['history'], 'provider': b['provider'], 'global_repo': b['global_repo']})
+        chk.sample({'file_histories': r['histories'], 'provider': it[0], 'global_repository': it[1]})
+    chk.cov['bounds']['file_histories'] = ('every sequence of <= %d loads out of %s (imports, valid and failing files), '
+                                           '2 providers, global repository on/off; no solver dimension' % (fitems[0][2], FOPS))
     chk.cov['paths_explored'] = hist
     chk.cov['distinct_nontrivial'] = nontrivial
     chk.cov['obligations'] = hist
@@ -447,5 +538,8 @@ def main():
 
 
 def replay(data):
+    if 'file_history' in data:
+        r = file_history_side(data['provider'], data['global_repo'], data['file_history'])
+        return bool(r), r
     return replay_history(data['scenario'], data['n'], data['history'], data['text'], data.get('before', ()),
                           data.get('earlier', ()), data.get('wlimit', 12))
